@@ -46,8 +46,11 @@ def run(ctx):
     res = json.load(open(out))
     for v in res.get("violations") or []:
         ctx.violation(v["key"], v["text"], v["replay"])
-    for combo, n in res["calls_per_transport_protocol"].items():
-        pass
+    for u in res.get("unusable_combinations") or []:
+        ctx.note("harness environment: combination left out - " + u[:6000])
+    ctx.extra["combinations_left_out"] = [u.split(":")[0] for u in res.get("unusable_combinations") or []]
+    if len(res.get("unusable_combinations") or []) > 6:
+        raise MachineryError("more than half of the transport / protocol combinations are unusable in this environment: " + "; ".join(u[:300] for u in res["unusable_combinations"][:3]))
     k = 0
     for kind in ("mem", "tcp", "http", "nats"):
         for proto in ("binary", "compact", "json"):
